@@ -4,7 +4,9 @@ from bounded.run_memory import run_history_scope
 from checks.common import CheckRun
 
 EXPLANATION = (
-    "B tier (bounded, never counted as proved): programs with standard (when=) cells — enable given as comparison, named "
+    "P tier (unbounded): on the real MemoryLowerer._lower_standard_write, on every path, the write enable handed to the IR is "
+    "on the reserved signal-W (decider retyped in place, +0 projection, or the constant 1), with the expression lowerer and "
+    "the IR builder used by contract. B tier (bounded, never counted as proved): programs with standard (when=) cells — enable given as comparison, named "
     "comparison, compound condition; data typed / untyped / computed; several readers; two cells sharing an enable — are "
     "compiled by the real pipeline. The blueprint is simulated tick by tick with the S2 model from the all-zero state; "
     "after every held input step (one input changed, held until the circuit is stable) every reader, output anchor and "
@@ -16,6 +18,7 @@ EXPLANATION = (
 
 def run(tier):
     cr = CheckRun("C03", tier, "other", EXPLANATION, "DESIGN §4 C03")
+    cr.contracts(["contracts.c03"])
     progs = gen.c03_scope(tier)
     length, limit = (4, 60) if tier == "quick" else (5, 600)
     for optimize in (True, False):
